@@ -227,6 +227,11 @@ def run(ck):
         ck.case(fp=('arc', name, repr(a), repr(b)), nontrivial=True)
         report_case(ck, name, a, b, known, {'family': name, 'a': repr(a), 'b': repr(b)}, exact_count=len(known), ptol=1e-4)
         report_case(ck, name + ' swapped', b, a, [(k[1], k[0], k[2]) for k in known], {'family': name}, exact_count=len(known), ptol=1e-4)
+        # the same pair a hundred times larger, and moved far from the origin: the parameters of the crossings do not change
+        for tag_, f_ in (('x100', lambda sg: sg.scaled(100)), ('moved by 3000-2000j', lambda sg: sg.translated(3000 - 2000j)), ('x0.05', lambda sg: sg.scaled(0.05))):
+            a2, b2 = f_(a), f_(b)
+            ck.case(fp=('arc', name, tag_), nontrivial=True)
+            report_case(ck, name + ' ' + tag_, a2, b2, [(k[0], k[1], a2.point(k[0])) for k in known], {'family': name, 'variant': tag_}, exact_count=len(known), ptol=1e-4)
     for name, p1, p2, exp in cm.path_families():
         ck.case(fp=('path', name), nontrivial=True)
         far = 200000 + 300000j          # the same configuration far from the origin: same crossings
